@@ -267,6 +267,11 @@ func expectAttr(c, k sb.V, args []sb.V) expect {
 		}
 		for i, kk := range keys {
 			if keyStr(kk) == keyStr(k) {
+				if k.K == "str" && isNumKind(kt) && isNumKind(kk.K) && !math.IsNaN(numOf(kk)) && math.Abs(numOf(kk)) < 1e6 {
+					// the plain spelling of a number finds the entry under
+					// that number (names.1, names['1'])
+					return expect{mode: "elem", repr: reprV(c.E[i])}
+				}
 				return expect{mode: "either", repr: reprV(c.E[i])}
 			}
 		}
